@@ -302,6 +302,10 @@ pub assume_specification [f64::atan] (x: f64) -> (r: f64) ensures r == atan_spec
 pub assume_specification [f64::asin] (x: f64) -> (r: f64) ensures r == asin_spec(x);
 pub assume_specification [f64::tan] (x: f64) -> (r: f64) ensures r == tan_spec(x);
 pub assume_specification [f64::hypot] (x: f64, y: f64) -> (r: f64) ensures r == hypot_spec(x, y);
+pub uninterp spec fn clamp_spec(x: f64, lo: f64, hi: f64) -> f64;
+pub assume_specification [f64::clamp] (x: f64, lo: f64, hi: f64) -> (r: f64) ensures r == clamp_spec(x, lo, hi);
+pub uninterp spec fn min_spec(a: f64, b: f64) -> f64;
+pub assume_specification [f64::min] (a: f64, b: f64) -> (r: f64) ensures r == min_spec(a, b);
 pub axiom fn ax_rsqrt(x: real)
     requires x >= 0real
     ensures rsqrt(x) >= 0real, rsqrt(x) * rsqrt(x) == x;
